@@ -129,6 +129,51 @@ theorem polls_answer_error (s : Streams) (k : Nat) (tag : String) (e : PErr) (fu
     exact ⟨_, rfl⟩
 
 
+theorem recvOpen_err (st : State) (eos inf : Bool) (st' : State) (e : PErr) (h : st.recvOpen eos inf = (st', .error e)) :
+    e = PErr.libraryGoAway PROTOCOL_ERROR := by
+  unfold State.recvOpen at h
+  simp only at h
+  repeat' split at h
+  all_goals first | (cases h; rfl) | cases h
+
+theorem rhCl_err (s : Streams) (k : Nat) (h : HeadersIn) (e : PErr) (hr : (rhCl s k h).2 = some e) :
+    ∃ i, e = PErr.libraryReset i PROTOCOL_ERROR := by
+  generalize hx : rhCl s k h = x at hr
+  unfold rhCl at hx
+  repeat' split at hx
+  all_goals subst hx
+  all_goals first | (cases hr; exact ⟨_, rfl⟩) | cases hr
+
+theorem rhTail_err (s : Streams) (k : Nat) (h : HeadersIn) (i : Bool) (e : PErr) (hr : (rhTail s k h i).2 = .state e) :
+    ∃ j, e = PErr.libraryReset j PROTOCOL_ERROR := by
+  generalize hx : rhTail s k h i = x at hr
+  unfold rhTail at hx
+  simp only at hx
+  repeat' split at hx
+  all_goals subst hx
+  all_goals first | (cases hr; exact ⟨_, rfl⟩) | cases hr
+
+/-- **how `Recv::recv_headers` refuses**: a connection error PROTOCOL_ERROR (the frame does not fit the
+    stream's state) or a stream error PROTOCOL_ERROR — nothing else -/
+theorem recvRecvHeaders_refusals (s : Streams) (k : Nat) (h : HeadersIn) (e : PErr)
+    (hr : (s.recvRecvHeaders k h).2 = .state e) :
+    e = PErr.libraryGoAway PROTOCOL_ERROR ∨ ∃ i, e = PErr.libraryReset i PROTOCOL_ERROR := by
+  rw [recvRecvHeaders_eq] at hr
+  split at hr
+  · rename_i st' e' heq
+    cases hr
+    exact Or.inl (recvOpen_err _ _ _ _ _ heq)
+  · rename_i st' i heq
+    have hc := rhCl_err (rhPre s k h st' i) k h
+    generalize rhCl (rhPre s k h st' i) k h = c at hc hr
+    obtain ⟨s2, o⟩ := c
+    cases o with
+    | some e' =>
+      simp only at hr
+      cases hr
+      exact Or.inr (hc e rfl)
+    | none => exact Or.inr (rhTail_err s2 k h i e hr)
+
 /-- the outcome "connection failed, or `Ok` with the stream failed (if still there)" -/
 def FailsStream (s1 : Streams) (k : Nat) (reason : Reason) (init : Initiator) (r : Streams × Except PErr Unit) : Prop :=
   r.2 = .error (PErr.libraryGoAwayData ENHANCE_YOUR_CALM "too_many_internal_resets") ∨
